@@ -99,6 +99,12 @@ fn dump(s: &Subject<u8>, limit: u8, paths: &BTreeSet<String>, with_seq: bool) ->
     for p in paths {
         out.push(' ');
         out.push_str(&hex(p.as_bytes()));
+        // the two read accessors agree (same observers, same order)
+        let via_list: Option<Vec<(u8, Vec<u8>)>> = s.get_resource_observers(p).map(|l| l.iter().map(|o| (o.endpoint, o.token.clone())).collect());
+        let via_res: Option<Vec<(u8, Vec<u8>)>> = s.get_resource(p).map(|r| r.observers.iter().map(|o| (o.endpoint, o.token.clone())).collect());
+        if via_list != via_res {
+            out.push_str("{ACCESSORS-DISAGREE}");
+        }
         match s.get_resource(p) {
             None => out.push_str("{-}"),
             Some(r) => {
